@@ -3,7 +3,7 @@
    every operation as a list of integers (compared exactly with the
    implementation's state). Model file. *)
 From Coq Require Import QArith Qminmax List Bool Arith ZArith.
-From WSI Require Import Vqip Pow Enc Tank Arc QTank Distrib.
+From WSI Require Import Vqip Pow Enc Tank Arc QTank Distrib Kinds.
 Import ListNotations.
 Open Scope Q_scope.
 
@@ -164,6 +164,102 @@ Fixpoint run_star (maxiter : nat) (outs ins : nstar) (ops : list sop) : list Z :
       match star_step maxiter outs ins o with
       | None => [(-999)%Z]                        (* the implementation must raise ZeroDivisionError here *)
       | Some (outs', ins', out) => out ++ enc_star outs' ++ enc_star ins' ++ run_star maxiter outs' ins' r
+      end
+  end.
+
+(* ---------------- store-backed node kinds with their stars ---------------- *)
+Inductive kkind := KStorage | KGroundwater | KRiver | KReservoir | KRiverReservoir.
+Inductive kop :=
+| KPushSet (v : vqip) | KPullSet (q : Q) | KPushCheck (ov : option vqip) | KPullCheck (ov : option Q)
+| KDistribute | KInfiltrate | KAbstract | KSatisfy | KEnd (T : Q).
+Definition nknode := knode (nb * nb).
+Definition enc_knode (k : nknode) : list Z :=
+  enc_tank (k_tank _ k) ++ encq (k_envsat _ k) ++ enc_star (k_outs _ k) ++ enc_star (k_ins _ k).
+Definition kind_step (maxiter : nat) (kd : kkind) (k : nknode) (o : kop) : option (nknode * list Z) :=
+  match o with
+  | KPushSet v =>
+      match kd with
+      | KRiver => let '(k', r) := rv_push_set _ k v in Some (k', ev r)
+      | KRiverReservoir =>
+          match rr_push_set _ nbport maxiter k v with None => None | Some (k', r) => Some (k', ev r) end
+      | _ => let '(k', r) := st_push_set _ k v in Some (k', ev r)
+      end
+  | KPullSet q =>
+      match kd with
+      | KRiver => match rv_pull_set _ nbport maxiter k q with None => None | Some (k', r) => Some (k', ev r) end
+      | _ => let '(k', r) := st_pull_set _ k q in Some (k', ev r)
+      end
+  | KPushCheck ov =>
+      match kd with
+      | KRiver => Some (k, ev (rv_push_check _ k ov))
+      | KRiverReservoir => Some (k, ev (rr_push_check _ nbport k ov))
+      | _ => Some (k, ev (st_push_check _ k ov))
+      end
+  | KPullCheck ov =>
+      match kd with
+      | KRiver => Some (k, ev (rv_pull_check _ nbport k ov))
+      | _ => Some (k, ev (st_pull_check _ k ov))
+      end
+  | KDistribute =>
+      match (match kd with
+             | KGroundwater => gw_distribute _ nbport maxiter k
+             | KRiver => rv_distribute _ nbport maxiter k
+             | _ => st_distribute _ nbport maxiter k end) with
+      | None => None | Some k' => Some (k', []) end
+  | KInfiltrate => match gw_infiltrate _ nbport maxiter k with None => None | Some k' => Some (k', []) end
+  | KAbstract => match rs_make_abstractions _ nbport maxiter k with None => None | Some k' => Some (k', []) end
+  | KSatisfy => match rr_satisfy_environmental _ nbport maxiter k with None => None | Some k' => Some (k', []) end
+  | KEnd T =>
+      let k1 := k_end _ k T in
+      Some (k_with _ k1 (k_tank _ k1) (end_star (k_outs _ k1)) (end_star (k_ins _ k1)) (k_envsat _ k1), [])
+  end.
+Fixpoint run_kind (maxiter : nat) (kd : kkind) (k : nknode) (ops : list kop) : list Z :=
+  match ops with
+  | [] => []
+  | o :: r =>
+      match kind_step maxiter kd k o with
+      | None => [(-999)%Z]
+      | Some (k', out) => out ++ enc_knode k' ++ run_kind maxiter kd k' r
+      end
+  end.
+
+(* ---------------- catchment ---------------- *)
+Inductive cop := CRoute | CPullCheck (ov : option Q) | CAbstract (j : nat) (q : Q) | CEnd.
+Record cstate := mkCS { cs_outs : nstar; cs_unrouted : vqip }.
+Definition catch_step (maxiter : nat) (flow : Q) (conc quality : vec) (c : cstate) (o : cop) : option (cstate * list Z) :=
+  match o with
+  | CRoute =>
+      match ca_route _ nbport maxiter (cs_outs c) (cs_unrouted c) flow conc quality with
+      | None => None
+      | Some (outs', unr) => Some (mkCS outs' unr, [])
+      end
+  | CPullCheck ov => Some (c, ev (ca_pull_check _ (cs_outs c) flow conc quality ov))
+  | CAbstract j q =>
+      let '(outs', got) := ca_abstract _ (cs_outs c) flow conc quality j q in Some (mkCS outs' (cs_unrouted c), ev got)
+  | CEnd => Some (mkCS (end_star (cs_outs c)) vzero, [])
+  end.
+(* the forcing row may change at every timestep end: ops come in per-timestep groups *)
+Fixpoint run_catch (maxiter : nat) (c : cstate) (steps : list (Q * vec * vec * list cop)) : list Z :=
+  match steps with
+  | [] => []
+  | (flow, conc, quality, ops) :: rest =>
+      let fix go (c : cstate) (ops : list cop) : option (cstate * list Z) :=
+        match ops with
+        | [] => Some (c, [])
+        | o :: r =>
+            match catch_step maxiter flow conc quality c o with
+            | None => None
+            | Some (c', out) =>
+                match go c' r with
+                | None => None
+                | Some (c'', out') =>
+                    Some (c'', out ++ ev (ca_get_flow flow conc quality) ++ ev (cs_unrouted c') ++ enc_star (cs_outs c') ++ out')
+                end
+            end
+        end in
+      match go c ops with
+      | None => [(-999)%Z]
+      | Some (c', out) => out ++ run_catch maxiter c' rest
       end
   end.
 End Dim.
